@@ -12,7 +12,7 @@ import (
 func init() {
 	register(&Check{
 		ID:            "C11",
-		Rule:          "every civil day in the year set (thorough: all days 1..9998) x 14 moments (13 slot entries + 23:59:59; quick tier: all 14 on term days, first/last days of lunar months and every third day, else 4 with a rotating inner slot): fixed list of route pairs — hour object vs Lunar.GetTime* accessors (27 pairs), GetTimes()[k] vs NewLunarTime, LunarYear vs Lunar year accessors under convention 1, deprecated aliases vs replacements (29 pairs), default-school accessors vs the explicit school; eight-character attributes collapsed by their defining pillars as selected by the current sect (functional-dependence tables, both sects). non-trivial = states at 23:xx (where the sects differ), on term days, and in the first/last lunar month (year routes)",
+		Rule:          "every civil day in the year set (thorough: all days 1..9998) x 14 moments (13 slot entries + 23:59:59; quick tier, and in the thorough tier the years outside the quick set: all 14 on term days, first/last days of lunar months and every third day, else 4 with a rotating inner slot): fixed list of route pairs — hour object vs Lunar.GetTime* accessors (27 pairs), GetTimes()[k] vs NewLunarTime, LunarYear vs Lunar year accessors under convention 1, deprecated aliases vs replacements (29 pairs), default-school accessors vs the explicit school; eight-character attributes collapsed by their defining pillars as selected by the current sect (functional-dependence tables, both sects). non-trivial = states at 23:xx (where the sects differ), on term days, and in the first/last lunar month (year routes)",
 		Assume:        []string{"eight-character dependence keys: per-pillar attributes keyed by (day stem, pillar); TaiYuan by month pillar; TaiXi by day pillar; MingGong/ShenGong by (year stem, month branch, hour branch) — each key is a projection of the four pillars, so a violation here is a violation of 'same pillars => same attributes' and vice versa for attributes defined on that projection"},
 		Shards:        narrowShards,
 		Run:           runC11,
@@ -23,7 +23,14 @@ func init() {
 func runC11(w *W) {
 	perturbCache = true
 	fd := func(table, key, val, wit string) { w.FDCheck(table, key, hashStr(val), wit) }
+	qset := map[int]bool{}
+	for _, y := range quickYears(w.Shard.Seed, 9998) {
+		qset[y] = true
+	}
 	sweepDays(w, "C11", func(d *Day, prev *Day) {
+		// thorough tier: all 14 moments with all route pairs on every day of the quick set's years; every other year gets
+		// the quick tier's moment rotation (all 14 x all pairs on all 3.65 M days is ~28 CPU-hours, measured)
+		reduced := !w.Thorough() || !qset[d.Y]
 		var times []hms
 		{
 			for k := 0; k <= 12; k++ {
@@ -35,7 +42,7 @@ func runC11(w *W) {
 			}
 			times = append(times, hms{23, 59, 59})
 		}
-		if !w.Thorough() {
+		if reduced {
 			// quick tier: all 14 moments on term days, on the first and last day of a lunar month and on every third day;
 			// otherwise 00:00, one inner slot rotating with the day number, 23:00 and 23:59:59
 			l0 := d.L()
@@ -112,7 +119,7 @@ func runC11(w *W) {
 			ne("Time.PositionFuDesc:default=sect2", lt.GetPositionFuDesc(), lt.GetPositionFuDescBySect(2))
 			// GetTimes()[k] vs NewLunarTime at that hour (once per day)
 			// (quick tier: at 00:00 every day, at 23:00 on even and at 23:59:59 on odd days)
-			if ti == 0 || (t.h == 23 && (w.Thorough() || (d.J%2 == 0) == (t.m == 0))) {
+			if ti == 0 || (t.h == 23 && (!reduced || (d.J%2 == 0) == (t.m == 0))) {
 				gt = l.GetTimes()
 				if len(gt) != 13 {
 					w.Viol("C11:GetTimes:len", fmt.Sprintf("GetTimes has %d entries at %s", len(gt), wit), wit)
@@ -148,7 +155,7 @@ func runC11(w *W) {
 				}
 			}
 			// quick tier: the alias/default groups at the first, a rotating and the two 23:xx moments of each day
-			full := w.Thorough() || ti == 0 || ti >= len(times)-2 || ti == d.J%len(times)
+			full := !reduced || ti == 0 || ti >= len(times)-2 || ti == d.J%len(times)
 			ec := l.GetEightChar()
 			if full {
 				// ---- 2b. twin entry points: package-level constructors vs the accessor of the same name
